@@ -2,7 +2,10 @@ package c16
 
 import (
 	"fmt"
+	"math"
 	"sort"
+	"strconv"
+	"strings"
 	"testing"
 	"time"
 
@@ -59,26 +62,9 @@ type recBucket struct{ vals []int64 }
 func (b *recBucket) Add(v int64) { b.vals = append(b.vals, v) }
 func (b *recBucket) Reset()      { b.vals = nil }
 
-func rollingWindow(r *simrt.Run, tier string) {
-	t := r.Tape
-	size := t.Range(1, 8)
-	unit := []time.Duration{time.Second, 50 * time.Millisecond, time.Millisecond, 3}[t.Intn(4)]
-	interval := unit * time.Duration(t.Range(1, 3))
-	ignore := t.Bool()
-	realBucket := t.Bool()
-	maxOps := 40
-	if tier == "thorough" {
-		maxOps = 120
-	}
-	nOps := t.Range(1, maxOps)
-	if t.Bool() {
-		r.Sleep(time.Duration(t.Range(1, int(3*interval))))
-	}
-
-	t0 := time.Now()
-	model := NewWindowModel(size, interval, ignore, t0)
-	var add func(v float64)
-	var reduce func() (vals []float64, sum float64, count int64)
+// newWindowUnderTest builds the RollingWindow of a run: with go-zero's own Bucket (sum and count
+// are compared) or with a recording bucket (the multiset of visited values is compared).
+func newWindowUnderTest(size int, interval time.Duration, ignore, realBucket bool) (add func(v float64), reduce func() (vals []float64, sum float64, count int64)) {
 	if realBucket {
 		var o []collection.RollingWindowOption[float64, *collection.Bucket[float64]]
 		if ignore {
@@ -95,29 +81,63 @@ func rollingWindow(r *simrt.Run, tier string) {
 			})
 			return
 		}
-	} else {
-		var o []collection.RollingWindowOption[int64, *recBucket]
-		if ignore {
-			o = append(o, collection.IgnoreCurrentBucket[int64, *recBucket]())
-		}
-		w := collection.NewRollingWindow[int64, *recBucket](func() *recBucket { return new(recBucket) }, size, interval, o...)
-		add = func(v float64) { w.Add(int64(v)) }
-		reduce = func() (vals []float64, sum float64, count int64) {
-			w.Reduce(func(b *recBucket) {
-				for _, v := range b.vals {
-					vals = append(vals, float64(v))
-					sum += float64(v)
-					count++
-				}
-			})
-			return
-		}
+		return
 	}
+	var o []collection.RollingWindowOption[int64, *recBucket]
+	if ignore {
+		o = append(o, collection.IgnoreCurrentBucket[int64, *recBucket]())
+	}
+	w := collection.NewRollingWindow[int64, *recBucket](func() *recBucket { return new(recBucket) }, size, interval, o...)
+	add = func(v float64) { w.Add(int64(v)) }
+	reduce = func() (vals []float64, sum float64, count int64) {
+		w.Reduce(func(b *recBucket) {
+			for _, v := range b.vals {
+				vals = append(vals, float64(v))
+				sum += float64(v)
+				count++
+			}
+		})
+		return
+	}
+	return
+}
+
+// window sizes beyond the small ones: what go-zero itself configures (breaker 40, shedder 50) and powers of two
+var rwLargeSizes = []int{10, 16, 40, 50, 64}
+
+func rollingWindow(r *simrt.Run, tier string) {
+	t := r.Tape
+	if t.Intn(4) == 3 {
+		rollingWindowConcurrent(r, tier)
+		return
+	}
+	size := t.Range(1, 8)
+	if t.Chance(1, 6) {
+		size = rwLargeSizes[t.Intn(len(rwLargeSizes))]
+		r.Probe("rw-large-size")
+	}
+	unit := []time.Duration{time.Second, 50 * time.Millisecond, time.Millisecond, 3}[t.Intn(4)]
+	interval := unit * time.Duration(t.Range(1, 3))
+	ignore := t.Bool()
+	realBucket := t.Bool()
+	maxOps := 40
+	if tier == "thorough" {
+		maxOps = 120
+	}
+	nOps := t.Range(1, maxOps)
+	if t.Bool() {
+		r.Sleep(time.Duration(t.Range(1, int(3*interval))))
+	}
+
+	t0 := time.Now()
+	model := NewWindowModel(size, interval, ignore, t0)
+	add, reduce := newWindowUnderTest(size, interval, ignore, realBucket)
 
 	var script []string
 	nAdds := 0
+	lastV := 0.0
 	for i := 0; i < nOps; i++ {
-		adv := t.Intn(10)
+		adv := t.Intn(11)
 		d := time.Since(t0)
 		toNext := interval - d%interval
 		var sl time.Duration
@@ -140,6 +160,17 @@ func rollingWindow(r *simrt.Run, tier string) {
 			sl = time.Duration(t.Range(1, int(interval)-1))
 		case 9:
 			sl = interval
+		case 10:
+			// a gap of some (not all) buckets of the window, with or without a remainder
+			hi := size - 1
+			if hi < 2 {
+				hi = 2
+			}
+			sl = time.Duration(t.Range(2, hi)) * interval
+			if t.Bool() {
+				sl += time.Duration(t.Range(0, int(interval)-1))
+			}
+			r.Probe("rw-op-after-partial-gap")
 		}
 		if sl > 0 {
 			r.Sleep(sl)
@@ -159,6 +190,27 @@ func rollingWindow(r *simrt.Run, tier string) {
 			} else {
 				v = float64(nAdds + 1)
 			}
+			if t.Chance(1, 4) {
+				// values a sum does not show (0), that lower it, that are not whole, huge, repeated
+				switch t.Intn(5) {
+				case 0:
+					v = 0
+				case 1:
+					v = -v
+				case 2:
+					if realBucket {
+						v += 0.5
+					} else {
+						v += float64(int64(1) << 52)
+					}
+				case 3:
+					v = lastV
+				default:
+					v = -1
+				}
+				r.Probe("rw-value-zero-negative-fraction-huge-or-repeated")
+			}
+			lastV = v
 			nAdds++
 			add(v)
 			ta := time.Now()
@@ -257,30 +309,46 @@ func setSequential(r *simrt.Run, tier string) {
 		}
 		return -1
 	}
+	// extreme: element values are not the small numbers 0..7 but the ends of each type's range
+	// (and the empty / a long string)
+	extreme := t.Chance(1, 3)
+	if extreme {
+		r.Probe("set-extreme-element-values")
+	}
+	ints := []int{0, -1, 1, math.MaxInt, math.MinInt, math.MaxInt32, math.MinInt32 - 1, 1 << 53}
+	strs := []string{"", " ", "0", strings.Repeat("s", 300), "s0", "S0", "\x00", "é"}
+	mkRaw := func(i int) (int, int64, uint, uint64, string) {
+		if !extreme {
+			return i, int64(i), uint(i), uint64(i), "s" + strconv.Itoa(i)
+		}
+		v := ints[i%len(ints)]
+		return v, int64(v), uint(v), uint64(v), strs[i%len(strs)]
+	}
 	mk := func(i int) any {
+		vi, vi64, vu, vu64, vs := mkRaw(i)
 		switch variant {
 		case 0, 6:
-			return i
+			return vi
 		case 1:
-			return fmt.Sprintf("s%d", i)
+			return vs
 		case 2:
-			return int64(i)
+			return vi64
 		case 3:
-			return uint(i)
+			return vu
 		case 4:
-			return uint64(i)
+			return vu64
 		}
 		switch t.Intn(5) {
 		case 0:
-			return i
+			return vi
 		case 1:
-			return int64(i)
+			return vi64
 		case 2:
-			return uint(i)
+			return vu
 		case 3:
-			return uint64(i)
+			return vu64
 		}
-		return fmt.Sprintf("s%d", i)
+		return vs
 	}
 	addOne := func(v any) {
 		switch x := v.(type) {
@@ -323,8 +391,59 @@ func setSequential(r *simrt.Run, tier string) {
 		}
 		return true
 	}
+	// addMany: the typed adders with none, two or three arguments (possibly repeated)
+	addMany := func() {
+		n := []int{2, 0, 3}[t.Intn(3)]
+		vs := make([]any, n)
+		for j := range vs {
+			vs[j] = mk(t.Intn(dom))
+		}
+		switch variant {
+		case 0, 6:
+			var a []int
+			for _, v := range vs {
+				a = append(a, v.(int))
+			}
+			s.AddInt(a...)
+		case 1:
+			var a []string
+			for _, v := range vs {
+				a = append(a, v.(string))
+			}
+			s.AddStr(a...)
+		case 2:
+			var a []int64
+			for _, v := range vs {
+				a = append(a, v.(int64))
+			}
+			s.AddInt64(a...)
+		case 3:
+			var a []uint
+			for _, v := range vs {
+				a = append(a, v.(uint))
+			}
+			s.AddUint(a...)
+		case 4:
+			var a []uint64
+			for _, v := range vs {
+				a = append(a, v.(uint64))
+			}
+			s.AddUint64(a...)
+		default:
+			// mixed types: only the untyped adder takes them in one call
+			s.Add(vs...)
+		}
+		for _, v := range vs {
+			if has(v) < 0 {
+				model = append(model, v)
+			}
+		}
+		r.Probe("set-typed-adder-with-0-2-or-3-arguments")
+	}
 	for i := 0; i < nOps; i++ {
-		switch t.Intn(8) {
+		switch t.Intn(9) {
+		case 8:
+			addMany()
 		case 0, 1, 2:
 			addOne(mk(t.Intn(dom)))
 			if t.Chance(1, 4) {
@@ -360,6 +479,10 @@ func setSequential(r *simrt.Run, tier string) {
 			if !sameSet(got) {
 				r.Fail("set-keys", "Set(variant %d).Keys() = %v, model elements %v", variant, got, model)
 				return
+			}
+			// the caller owns the returned slice: writing to it must not reach the set
+			for j := range got {
+				got[j] = "scribbled"
 			}
 			var typed []any
 			switch variant {
@@ -420,11 +543,45 @@ func setSequential(r *simrt.Run, tier string) {
 func queueSequential(r *simrt.Run, tier string) {
 	t := r.Tape
 	size := t.Range(1, 5)
+	if t.Chance(1, 6) {
+		size = []int{8, 16, 31, 64}[t.Intn(4)]
+		r.Probe("queue-large-initial-size")
+	}
 	maxOps := 120
 	if tier == "thorough" {
 		maxOps = 500
 	}
 	nOps := t.Range(1, maxOps)
+	// mixed: elements are not only ints: strings, nil, slices (not comparable), structs
+	mixed := t.Chance(1, 3)
+	if mixed {
+		r.Probe("queue-elements-of-varied-type-and-nil")
+	}
+	elem := func(n int) any {
+		if !mixed {
+			return n
+		}
+		switch n % 5 {
+		case 1:
+			return "e" + strconv.Itoa(n)
+		case 2:
+			return nil
+		case 3:
+			return []int{n}
+		case 4:
+			return struct{ a, b int }{n, -n}
+		}
+		return n
+	}
+	same := func(got any, n int) bool {
+		if sl, ok := got.([]int); ok {
+			return mixed && n%5 == 3 && len(sl) == 1 && sl[0] == n
+		}
+		if mixed && n%5 == 3 {
+			return false
+		}
+		return got == elem(n)
+	}
 	q := collection.NewQueue(size)
 	var model []int
 	next := 0
@@ -437,7 +594,7 @@ func queueSequential(r *simrt.Run, tier string) {
 		switch v := t.Intn(11); {
 		case v < putBias:
 			next++
-			q.Put(next)
+			q.Put(elem(next))
 			model = append(model, next)
 			if len(model) > size && !grown {
 				grown = true
@@ -462,8 +619,8 @@ func queueSequential(r *simrt.Run, tier string) {
 				r.Fail("queue-take-lost-element", "Queue(size %d).Take() reported empty, the model still holds %d elements starting with %d (op %d)", size, len(model)+1, want, i)
 				return
 			}
-			if got != any(want) {
-				r.Fail("queue-fifo-order", "Queue(size %d).Take() = %v, the oldest element is %d (then %v) (op %d)", size, got, want, model, i)
+			if !same(got, want) {
+				r.Fail("queue-fifo-order", "Queue(size %d).Take() = %v, the oldest element is #%d (then %v) (op %d)", size, got, want, model, i)
 				return
 			}
 		default:
@@ -476,7 +633,7 @@ func queueSequential(r *simrt.Run, tier string) {
 	// drain
 	for len(model) > 0 {
 		got, ok := q.Take()
-		if !ok || got != any(model[0]) {
+		if !ok || !same(got, model[0]) {
 			r.Fail("queue-fifo-order", "Queue(size %d) drain: Take() = (%v,%v), expected %d (remaining %v)", size, got, ok, model[0], model)
 			return
 		}
@@ -498,7 +655,29 @@ func ringSequential(r *simrt.Run, tier string) {
 	if tier == "thorough" {
 		maxOps = 200
 	}
+	if t.Chance(1, 6) {
+		n = []int{8, 16, 33, 64}[t.Intn(4)]
+		maxOps = 5 * n
+		r.Probe("ring-large-n")
+	}
 	nOps := t.Range(1, maxOps)
+	mixed := t.Chance(1, 3) // elements of varied dynamic type, nil among them
+	elem := func(v int) any {
+		if !mixed {
+			return v
+		}
+		switch v % 4 {
+		case 1:
+			return "e" + strconv.Itoa(v)
+		case 2:
+			return nil
+		case 3:
+			return [2]int{v, -v}
+		}
+		return v
+	}
+	// scribble: the caller owns the slice Take returned and overwrites it
+	scribble := t.Bool()
 	ring := collection.NewRing(n)
 	var model []int
 	adds := 0
@@ -506,17 +685,25 @@ func ringSequential(r *simrt.Run, tier string) {
 		got := ring.Take()
 		ok := len(got) == len(model)
 		for j := 0; ok && j < len(got); j++ {
-			ok = got[j] == any(model[j])
+			ok = got[j] == elem(model[j])
 		}
 		if !ok {
-			r.Fail("ring-content", "Ring(%d).Take() = %v after %d adds, the last %d added elements in order are %v (op %d)", n, got, adds, n, model, i)
+			r.Fail("ring-content", "Ring(%d).Take() = %v after %d adds, the last %d added elements (numbers) in order are %v (op %d)", n, got, adds, n, model, i)
+		}
+		if scribble && len(got) > 0 {
+			for j := range got {
+				got[j] = "scribbled"
+			}
+			got = append(got, "appended")
+			_ = got
+			r.Probe("ring-taken-slice-overwritten-by-caller")
 		}
 		return ok
 	}
 	for i := 0; i < nOps; i++ {
 		if t.Intn(4) < 3 {
 			adds++
-			ring.Add(adds)
+			ring.Add(elem(adds))
 			model = append(model, adds)
 			if len(model) > n {
 				model = model[1:]
@@ -548,15 +735,69 @@ func safeMapLong(r *simrt.Run, tier string) {
 	nextVal := 0
 	nOps := 0
 	failed := false
+	// keyMode: 0 key number n is the int n; 1 a string; 2 the dynamic type varies and equal numbers of
+	// different types are different keys (int 5, int64 5, "5", [2]int{5}); nilVals: some values are nil
+	keyMode, nilVals := 0, false
+	if t.Chance(1, 3) {
+		keyMode = t.Range(1, 2)
+		r.Probe("safemap-keys-not-ints")
+	}
+	if t.Chance(1, 3) {
+		nilVals = true
+		r.Probe("safemap-nil-values")
+	}
+	mk := func(k int) any {
+		switch keyMode {
+		case 1:
+			return strconv.Itoa(k)
+		case 2:
+			switch k % 4 {
+			case 1:
+				return int64(k / 4)
+			case 2:
+				return strconv.Itoa(k / 4)
+			case 3:
+				return [2]int{k / 4, 0}
+			}
+			return k / 4
+		}
+		return k
+	}
+	unmk := func(x any) int {
+		switch p := x.(type) {
+		case int:
+			if keyMode == 2 {
+				return 4 * p
+			}
+			return p
+		case int64:
+			return 4*int(p) + 1
+		case string:
+			n, _ := strconv.Atoi(p)
+			if keyMode == 2 {
+				return 4*n + 2
+			}
+			return n
+		case [2]int:
+			return 4*p[0] + 3
+		}
+		return -1
+	}
+	val := func(n int) any {
+		if nilVals && n%7 == 0 {
+			return nil
+		}
+		return n
+	}
 	verifyKey := func(k int, when string) {
 		if failed {
 			return
 		}
-		v, ok := m.Get(k)
+		v, ok := m.Get(mk(k))
 		mv, mok := model[k]
-		if ok != mok || (ok && v != any(mv)) {
+		if ok != mok || (ok && v != val(mv)) {
 			failed = true
-			r.Fail("safemap-get-mismatch", "SafeMap.Get(%d) = (%v,%v) %s after %d operations, a map holds (%v,%v)", k, v, ok, when, nOps, mv, mok)
+			r.Fail("safemap-get-mismatch", "SafeMap.Get(%#v) = (%v,%v) %s after %d operations, a map holds (%v,%v)", mk(k), v, ok, when, nOps, val(mv), mok)
 		}
 	}
 	verifySize := func(when string) {
@@ -570,7 +811,7 @@ func safeMapLong(r *simrt.Run, tier string) {
 	}
 	set := func(k int) {
 		nextVal++
-		m.Set(k, nextVal)
+		m.Set(mk(k), val(nextVal))
 		model[k] = nextVal
 		nOps++
 		if nOps%11 == 0 {
@@ -578,7 +819,7 @@ func safeMapLong(r *simrt.Run, tier string) {
 		}
 	}
 	del := func(k int) {
-		m.Del(k)
+		m.Del(mk(k))
 		delete(model, k)
 		nOps++
 		if nOps%11 == 0 {
@@ -592,13 +833,13 @@ func safeMapLong(r *simrt.Run, tier string) {
 		if failed {
 			return
 		}
-		seen := map[int]int{}
+		seen := map[int]any{}
 		dup := -1
 		m.Range(func(k, v any) bool {
-			if _, ok := seen[k.(int)]; ok {
-				dup = k.(int)
+			if _, ok := seen[unmk(k)]; ok {
+				dup = unmk(k)
 			}
-			seen[k.(int)] = v.(int)
+			seen[unmk(k)] = v
 			return true
 		})
 		if dup >= 0 {
@@ -617,14 +858,40 @@ func safeMapLong(r *simrt.Run, tier string) {
 		}
 		sort.Ints(keys)
 		for _, k := range keys {
-			if sv, ok := seen[k]; !ok || sv != model[k] {
+			if sv, ok := seen[k]; !ok || sv != val(model[k]) {
 				failed = true
-				r.Fail("safemap-range-mismatch", "SafeMap.Range gave (%v,%v) for key %d %s after %d operations, a map holds %d", sv, ok, k, when, nOps, model[k])
+				r.Fail("safemap-range-mismatch", "SafeMap.Range gave (%v,%v) for key %#v %s after %d operations, a map holds %v", sv, ok, mk(k), when, nOps, val(model[k]))
 				return
 			}
 			verifyKey(k, when)
 		}
 		verifySize(when)
+		// a Range whose function says "stop" (returns false) at its n-th call: it is called exactly n
+		// times (n <= number of keys), every time with a different key of the map and that key's value
+		if len(model) > 0 && t.Bool() {
+			stopAt := t.Range(1, len(model))
+			calls, bad := 0, ""
+			visited := map[int]bool{}
+			m.Range(func(k, v any) bool {
+				calls++
+				kn := unmk(k)
+				if mv, ok := model[kn]; !ok || v != val(mv) || visited[kn] {
+					bad = fmt.Sprintf("call %d got (%#v, %v), a map holds (%v,%v) for that key, visited before: %v", calls, k, v, val(mv), ok, visited[kn])
+				}
+				visited[kn] = true
+				return calls < stopAt
+			})
+			r.Probe("safemap-range-stopped-by-callback")
+			if calls != stopAt {
+				failed = true
+				r.Fail("safemap-range-ignores-stop", "SafeMap.Range called the function %d times %s after %d operations although it returned false at call %d (map of %d keys)", calls, when, nOps, stopAt, len(model))
+				return
+			}
+			if bad != "" {
+				failed = true
+				r.Fail("safemap-range-mismatch", "SafeMap.Range (stopped at call %d) %s after %d operations: %s", stopAt, when, nOps, bad)
+			}
+		}
 	}
 
 	base := t.Range(900, 1300)
@@ -908,10 +1175,14 @@ func ringConcurrent(r *simrt.Run, tier string) {
 					ring.Add(o.val)
 				} else {
 					var bs []byte
-					for _, v := range ring.Take() {
+					taken := ring.Take()
+					for _, v := range taken {
 						bs = append(bs, byte(v.(int)))
 					}
 					out.content = string(bs)
+					for j := range taken {
+						taken[j] = -1 // the caller owns what Take returned
+					}
 				}
 				ret := h.tick()
 				r.Ev("return", int64(c), int64(len(out.content)))
